@@ -42,6 +42,13 @@ type Nested struct {
 	C []int32
 }
 
+// AllOpt is an input object all of whose own fields may be left out; as a non-pointer field
+// (or list element) the object itself is still required.
+type AllOpt struct {
+	P *int64
+	O string `graphql:",optional"`
+}
+
 type ArgScalars struct {
 	I8  int8
 	I16 int16
@@ -89,6 +96,8 @@ type ArgLists struct {
 	PN *Nested
 	LE []EnumA
 	PL *[]string
+	RO AllOpt
+	LO []AllOpt
 }
 
 var sink struct {
